@@ -447,7 +447,11 @@ static std::string ext_once(uint64_t p, uint64_t e, const std::string& op, uint6
 }
 // gfqx <w> <p> <e> <seed> <n>     GFqExtFast<int32_t> (w=32) / GFqExt<int64_t> (w=64) ::random(g, r): exponents, then "| state"
 template <class FX> static std::string gfqx_once(uint64_t p, uint64_t e, uint64_t seed, int n) {
-    FX F((typename FX::Residu_t) p, (typename FX::Residu_t) e);
+    // one field object per (p, e): the table fields choose their irreducible polynomial when they are built
+    static std::map<std::pair<uint64_t, uint64_t>, std::unique_ptr<FX> > cache;
+    std::unique_ptr<FX>& slot = cache[std::make_pair(p, e)];
+    if (!slot) slot.reset(new FX((typename FX::Residu_t) p, (typename FX::Residu_t) e));
+    const FX& F = *slot;
     GivRandom g(seed);
     std::ostringstream o;
     o << (unsigned long long) F.cardinality();
